@@ -30,6 +30,34 @@ func c07Gadget(api frontend.API, in []frontend.Variable) []frontend.Variable {
 	}
 }
 
+// c07AliasGadget: operand shapes under which a builder that mutates the first argument of
+// MulAcc in place would corrupt a value still in use (shared variable between addend and
+// product operand; an addend with spare capacity used as addend twice). in = [x, y, u, v, t].
+func c07AliasGadget(api frontend.API, in []frontend.Variable) []frontend.Variable {
+	g := gl.New(api)
+	x, y, u, v, t := gl.NewVariable(in[0]), gl.NewVariable(in[1]), gl.NewVariable(in[2]), gl.NewVariable(in[3]), gl.NewVariable(in[4])
+	s1 := g.Add(x, x)
+	s2 := g.Sub(x, x)
+	s3 := g.MulAdd(x, gl.NewVariable(5), x)
+	keep := g.Mul(x, y) // x must still be x here
+	tt := g.MulAddNoReduce(t, y, u) // an expression with spare capacity
+	r1 := g.MulAddNoReduce(x, y, tt)
+	r2 := g.MulAddNoReduce(u, v, tt)
+	tr := g.Reduce(tt) // MulAdd wants reduced operands
+	r3 := g.MulAdd(x, y, tr)
+	r4 := g.MulAdd(u, v, tr)
+	e := g.MulAddExtension(gl.QuadraticExtensionVariable{x, y}, gl.QuadraticExtensionVariable{u, v}, gl.QuadraticExtensionVariable{tt, tt})
+	return []frontend.Variable{s1.Limb, s2.Limb, s3.Limb, keep.Limb, g.Reduce(r1).Limb, g.Reduce(r2).Limb, r3.Limb, r4.Limb, e[0].Limb, e[1].Limb, tr.Limb}
+}
+
+func c07AliasExpected(in [5]uint64) []uint64 {
+	x, y, u, v, t := in[0], in[1], in[2], in[3], in[4]
+	tt := ref.Add(ref.Mul(t, y), u)
+	e := ref.EAdd(ref.EMul(ref.E{x, y}, ref.E{u, v}), ref.E{tt, tt})
+	return []uint64{ref.Add(x, x), 0, ref.Add(ref.Mul(x, 5), x), ref.Mul(x, y), ref.Add(ref.Mul(x, y), tt), ref.Add(ref.Mul(u, v), tt),
+		ref.Add(ref.Mul(x, y), tt), ref.Add(ref.Mul(u, v), tt), e[0], e[1], tt}
+}
+
 type c07Triple struct {
 	A, B, C uint64
 	X       *big.Int
@@ -132,6 +160,7 @@ func init() {
 					for i := 0; i < ns; i++ {
 						cs = append(cs, fw.Case{ID: fmt.Sprintf("solver/%s/%d", sys, i), Kind: "solver", P: map[string]any{"sys": sys, "i": i}})
 					}
+					cs = append(cs, fw.Case{ID: "alias/" + sys, Kind: "alias", P: map[string]any{"sys": sys}})
 				}
 				return cs
 			},
@@ -244,6 +273,54 @@ func init() {
 						o.Inc("triples_checked")
 					}
 					o.Sample = map[string]any{"face": "commit", "triples": len(ts), "deferred_callbacks": res.Stats.Deferred}
+				case "alias":
+					sys := c.Str("sys")
+					cc, err := gadget.Compile(sys, c07AliasGadget, 5, 11, gadget.PadCommit, nil)
+					if err != nil {
+						return fw.Inconcl("compile alias gadget: " + err.Error())
+					}
+					r := ctx.Rand("alias/" + sys)
+					n := 8
+					if !ctx.Quick {
+						n = 60
+					}
+					for k := 0; k < n; k++ {
+						in5 := [5]uint64{randGL(r), randGL(r), randGL(r), randGL(r), randGL(r)}
+						if k == 0 {
+							in5 = [5]uint64{3, 5, 7, 11, 13}
+						}
+						want := c07AliasExpected(in5)
+						in := make([]*big.Int, 5)
+						for i := range in {
+							in[i] = bu(in5[i])
+						}
+						outs := make([]*big.Int, len(want))
+						for i := range want {
+							outs[i] = bu(want[i])
+						}
+						// the engine must compute the reference values ...
+						got, res := gadget.EngineEval(engine.Options{Face: engine.Native}, c07AliasGadget, in)
+						o.Events += events(res)
+						if res.Verdict != engine.Accept {
+							return fw.Violate("gadget_failed:alias_shapes", resStr(res))
+						}
+						for i := range want {
+							if got[i].Cmp(outs[i]) != 0 {
+								return fw.Violate("wrong_result:alias_shapes", fmt.Sprintf("output %d = %s, want %d (inputs %v)", i, got[i], want[i], in5))
+							}
+						}
+						// ... and the compiled system must accept exactly them with the honest prover
+						if err := cc.Solve(in, outs); err != nil {
+							return fw.Violate("compiled_system_rejects_honest_witness:"+sys, fmt.Sprintf("shared-operand shapes (Add(x,x), MulAdd(x,k,x), an addend used twice), inputs %v: %v", in5, trunc(err.Error(), 160)))
+						}
+						bad := append([]*big.Int(nil), outs...)
+						bad[k%len(bad)] = new(big.Int).Add(bad[k%len(bad)], big.NewInt(1))
+						if err := cc.Solve(in, bad); err == nil {
+							return fw.Violate("solver_accepts_wrong_output:"+sys+":alias_shapes", fmt.Sprintf("inputs %v output %d", in5, k%len(bad)))
+						}
+						o.Inc("alias_shapes_agree_" + sys)
+					}
+					o.Sample = map[string]any{"system": sys, "constraints": cc.CS.GetNbConstraints()}
 				case "solver":
 					sys := c.Str("sys")
 					cp := ctx.Once("compiled/"+sys, func() any {
